@@ -100,18 +100,140 @@ func LoadFindings() []Finding {
 	return out
 }
 
-// RunShard executes the runs i ≡ k (mod K) of a batch and prints one JSON RunRecord per line.
+// Agg is what a shard (and, merged, the batch) reports: counters and sets, plus the records of
+// violating runs and a few samples. Per-run records are not kept (millions of runs in thorough).
+type Agg struct {
+	Runs      int            `json:"runs"`
+	Discarded int            `json:"discarded"`
+	Events    int            `json:"events"`
+	Execs     int            `json:"execs"`
+	Children  int            `json:"children"`
+	Rejects   int            `json:"rejects"`
+	Ticks     int64          `json:"ticks"`
+	Faults    map[string]int `json:"faults"`
+	Probes    map[string]int `json:"probes"`
+	Shapes    []uint64       `json:"shapes"` // distinct non-trivial shapes
+	States    []uint64       `json:"states"`
+	Panics    []string       `json:"panics"`
+	MinRun    int            `json:"min_run"`
+	MaxRun    int            `json:"max_run"`
+	Samples   []*RunRecord   `json:"samples"`
+	Viols     []*RunRecord   `json:"viols"`
+	shapeSet  map[uint64]bool
+	stateSet  map[uint64]bool
+}
+
+func NewAgg() *Agg {
+	return &Agg{Faults: map[string]int{}, Probes: map[string]int{}, shapeSet: map[uint64]bool{}, stateSet: map[uint64]bool{}, MinRun: -1}
+}
+
+func (a *Agg) Add(r *RunRecord) {
+	a.Runs++
+	if a.MinRun < 0 || r.Run < a.MinRun {
+		a.MinRun = r.Run
+	}
+	if r.Run > a.MaxRun {
+		a.MaxRun = r.Run
+	}
+	s := &r.Outcome.Stats
+	if r.Outcome.Viol != nil {
+		a.Viols = append(a.Viols, r)
+	}
+	if s.Discarded {
+		a.Discarded++
+		return
+	}
+	if s.Nontrivial {
+		a.shapeSet[Hash64(s.Shape)] = true
+	}
+	for _, st := range s.States {
+		a.stateSet[st] = true
+	}
+	for k, v := range s.Faults {
+		a.Faults[k] += v
+	}
+	for k, v := range s.Probes {
+		a.Probes[k] += v
+	}
+	a.Ticks += s.Ticks
+	a.Rejects += s.Rejects
+	a.Execs += s.Execs
+	a.Children += s.Children
+	a.Events += r.Events
+	for _, p := range s.Panics {
+		if len(a.Panics) < 20 {
+			a.Panics = append(a.Panics, p)
+		}
+	}
+	if r.History != nil && r.Outcome.Viol == nil && len(a.Samples) < 3 {
+		a.Samples = append(a.Samples, r)
+	}
+}
+
+func (a *Agg) seal() {
+	a.Shapes = a.Shapes[:0]
+	for k := range a.shapeSet {
+		a.Shapes = append(a.Shapes, k)
+	}
+	a.States = a.States[:0]
+	for k := range a.stateSet {
+		a.States = append(a.States, k)
+	}
+	sort.Slice(a.Shapes, func(i, j int) bool { return a.Shapes[i] < a.Shapes[j] })
+	sort.Slice(a.States, func(i, j int) bool { return a.States[i] < a.States[j] })
+}
+
+// Merge folds another (sealed) aggregate in.
+func (a *Agg) Merge(b *Agg) {
+	a.Runs += b.Runs
+	a.Discarded += b.Discarded
+	a.Events += b.Events
+	a.Execs += b.Execs
+	a.Children += b.Children
+	a.Rejects += b.Rejects
+	a.Ticks += b.Ticks
+	for k, v := range b.Faults {
+		a.Faults[k] += v
+	}
+	for k, v := range b.Probes {
+		a.Probes[k] += v
+	}
+	for _, k := range b.Shapes {
+		a.shapeSet[k] = true
+	}
+	for _, k := range b.States {
+		a.stateSet[k] = true
+	}
+	for _, p := range b.Panics {
+		if len(a.Panics) < 20 {
+			a.Panics = append(a.Panics, p)
+		}
+	}
+	if b.Runs > 0 {
+		if a.MinRun < 0 || b.MinRun < a.MinRun {
+			a.MinRun = b.MinRun
+		}
+		if b.MaxRun > a.MaxRun {
+			a.MaxRun = b.MaxRun
+		}
+	}
+	a.Samples = append(a.Samples, b.Samples...)
+	a.Viols = append(a.Viols, b.Viols...)
+}
+
+// RunShard executes the runs i ≡ k (mod K) of a batch and prints its aggregate as one JSON document.
 func RunShard(sc Scenario, tier string, seed uint64, k, K int, deadline time.Time, w *bufio.Writer) {
 	b := sc.Budget(tier)
-	enc := json.NewEncoder(w)
+	agg := NewAgg()
 	for i := k; i < b.Runs; i += K {
 		if !deadline.IsZero() && time.Now().After(deadline) {
 			break
 		}
-		rec := RunOne(sc, tier, seed, i)
-		_ = enc.Encode(rec)
-		_ = w.Flush()
+		agg.Add(RunOne(sc, tier, seed, i))
 	}
+	agg.seal()
+	_ = json.NewEncoder(w).Encode(agg)
+	_ = w.Flush()
 }
 
 // RunOne generates, executes and (on violation) minimises run i.
@@ -158,7 +280,7 @@ func RunBatch(sc Scenario, tier string) int {
 	}
 	fmt.Printf("grolsim: property=%s tier=%s VERIF_SEED=%d runs=%d workers=%d\n", sc.ID(), tier, seed, b.Runs, K)
 	type res struct {
-		recs []*RunRecord
+		agg  *Agg
 		err  error
 		errb string
 	}
@@ -173,36 +295,31 @@ func RunBatch(sc Scenario, tier string) int {
 			cmd.Stdout = &outb
 			cmd.Stderr = &errb
 			err := cmd.Run()
-			var recs []*RunRecord
-			sc := bufio.NewScanner(&outb)
-			sc.Buffer(make([]byte, 1<<20), 1<<28)
-			for sc.Scan() {
-				var r RunRecord
-				if e := json.Unmarshal(sc.Bytes(), &r); e != nil {
-					if err == nil {
-						err = fmt.Errorf("bad shard output: %v", e)
-					}
-					break
+			agg := NewAgg()
+			if err == nil {
+				if e := json.Unmarshal(outb.Bytes(), agg); e != nil {
+					err = fmt.Errorf("bad shard output: %v", e)
 				}
-				recs = append(recs, &r)
 			}
-			results[k] = res{recs, err, errb.String()}
+			results[k] = res{agg, err, errb.String()}
 			done <- k
 		}(k)
 	}
 	for i := 0; i < K; i++ {
 		<-done
 	}
-	var all []*RunRecord
+	total := NewAgg()
 	for k, r := range results {
 		if r.err != nil {
 			fmt.Printf("grolsim: HARNESS FAILURE in shard %d: %v\n%s\n", k, r.err, tail(r.errb, 4000))
 			return 2
 		}
-		all = append(all, r.recs...)
+		total.Merge(r.agg)
 	}
+	all := total.Viols
 	sort.Slice(all, func(i, j int) bool { return all[i].Run < all[j].Run })
-	if len(all) == 0 {
+	sort.Slice(total.Samples, func(i, j int) bool { return total.Samples[i].Run < total.Samples[j].Run })
+	if total.Runs == 0 {
 		fmt.Println("grolsim: HARNESS FAILURE: no run completed")
 		return 2
 	}
@@ -248,12 +365,12 @@ func RunBatch(sc Scenario, tier string) int {
 		f := matchFinding(findings, sc.ID(), sig)
 		fmt.Printf("KNOWN-FINDING: property=%s %s [sig=%s seen=%d]\n", sc.ID(), f.What, sig, knownSeen[sig])
 	}
-	if err := writeEvidence(sc, tier, seed, all, b, K, time.Since(start), violations, knownSeen); err != nil {
+	if err := writeEvidence(sc, tier, seed, total, b, K, time.Since(start), violations, knownSeen); err != nil {
 		fmt.Printf("grolsim: HARNESS FAILURE: evidence: %v\n", err)
 		return 2
 	}
 	fmt.Printf("grolsim: property=%s completed_runs=%d/%d violations=%d known_findings_seen=%d wall=%.1fs\n",
-		sc.ID(), len(all), b.Runs, violations, len(knownSeen), time.Since(start).Seconds())
+		sc.ID(), total.Runs, b.Runs, violations, len(knownSeen), time.Since(start).Seconds())
 	return exit
 }
 
@@ -321,52 +438,18 @@ func Replay(sc Scenario, h *History, path string) int {
 	return 1
 }
 
-func writeEvidence(sc Scenario, tier string, seed uint64, all []*RunRecord, b Budget, K int, wall time.Duration,
+func writeEvidence(sc Scenario, tier string, seed uint64, a *Agg, b Budget, K int, wall time.Duration,
 	violations int, knownSeen map[string]int,
 ) error {
 	info := sc.Info()
-	shapes := map[string]bool{}
-	states := map[uint64]bool{}
-	faults := map[string]int{}
-	probes := map[string]int{}
-	var ticks int64
-	discarded, rejects, execs, children, events := 0, 0, 0, 0, 0
-	var panics []string
 	var samples []any
-	for _, r := range all {
-		s := &r.Outcome.Stats
-		if s.Discarded {
-			discarded++
-			continue
-		}
-		if s.Nontrivial {
-			shapes[s.Shape] = true
-		}
-		for _, st := range s.States {
-			states[st] = true
-		}
-		for k, v := range s.Faults {
-			faults[k] += v
-		}
-		for k, v := range s.Probes {
-			probes[k] += v
-		}
-		ticks += s.Ticks
-		rejects += s.Rejects
-		execs += s.Execs
-		children += s.Children
-		events += r.Events
-		for _, p := range s.Panics {
-			if len(panics) < 20 {
-				panics = append(panics, p)
-			}
-		}
-		if r.History != nil && len(samples) < 3 && r.Outcome.Viol == nil {
+	for _, r := range a.Samples {
+		if len(samples) < 3 {
 			samples = append(samples, sampleOf(r.History))
 		}
 	}
 	if len(samples) == 0 {
-		for _, r := range all {
+		for _, r := range a.Viols {
 			if r.History != nil {
 				samples = append(samples, sampleOf(r.History))
 				break
@@ -377,49 +460,47 @@ func writeEvidence(sc Scenario, tier string, seed uint64, all []*RunRecord, b Bu
 	if hours <= 0 {
 		hours = 1e-9
 	}
-	var zeroProbes []string
-	for k, v := range probes {
+	zeroProbes := []string{}
+	for k, v := range a.Probes {
 		if v == 0 {
 			zeroProbes = append(zeroProbes, k)
 		}
 	}
 	sort.Strings(zeroProbes)
-	tps := int64(1000)
+	if a.Panics == nil {
+		a.Panics = []string{}
+	}
 	cov := map[string]any{
-		"evaluations":         len(all) - discarded,
-		"distinct_nontrivial": len(shapes),
+		"evaluations":         a.Runs - a.Discarded,
+		"distinct_nontrivial": len(a.shapeSet),
 		"rule":                info.Rule,
 		"samples":             samples,
 		"exhaustive":          info.Exhaustive,
-		"seeds":               map[string]any{"verif_seed": seed, "run_indices": []int{all[0].Run, all[len(all)-1].Run}, "derivation": "run_seed = mix(VERIF_SEED, property, run index)"},
+		"seeds":               map[string]any{"verif_seed": seed, "run_indices": []int{a.MinRun, a.MaxRun}, "derivation": "run_seed = mix(VERIF_SEED, property, run index)"},
 		"runs_requested":      b.Runs,
-		"runs_completed":      len(all),
-		"runs_per_hour":       int64(float64(len(all)) / hours),
-		"events_executed":     events,
-		"session_executions":  execs,
+		"runs_completed":      a.Runs,
+		"runs_per_hour":       int64(float64(a.Runs) / hours),
+		"events_executed":     a.Events,
+		"session_executions":  a.Execs,
 		"worker_processes":    K,
-		"child_processes":     children,
-		"simulated_ticks":     ticks,
-		"simulated_seconds":   float64(ticks) / float64(tps),
+		"child_processes":     a.Children,
+		"simulated_ticks":     a.Ticks,
+		"simulated_seconds":   float64(a.Ticks) / 1000,
 		"tick_definition":     "one tick = one Context.Err() poll by evalInternal (one evaluated AST node); 1000 ticks = 1 simulated second",
-		"faults_fired":        faults,
-		"probes":              probes,
+		"faults_fired":        a.Faults,
+		"probes":              a.Probes,
 		"probes_at_zero":      zeroProbes,
-		"distinct_states":     len(states),
-		"discarded":           discarded,
-		"generator_rejects":   rejects,
+		"distinct_states":     len(a.stateSet),
+		"discarded":           a.Discarded,
+		"generator_rejects":   a.Rejects,
 		"known_findings_seen": knownSeen,
 		"components_real":     info.Real,
 		"components_stubbed":  info.Stubbed,
-		"unexpected_panics":   panics,
+		"unexpected_panics":   a.Panics,
 		"notes":               info.Notes,
 	}
 	if f, ok := sc.(Finaliser); ok {
-		f.Finalise(cov, derefRecords(all))
-	}
-	if n, _ := cov["distinct_nontrivial"].(int); n < 2 {
-		// never pad: report what was measured; the schema will reject <2 and that is the honest outcome.
-		_ = n
+		f.Finalise(cov, a)
 	}
 	ev := map[string]any{
 		"property_id": sc.ID(),
@@ -440,14 +521,6 @@ func writeEvidence(sc Scenario, tier string, seed uint64, all []*RunRecord, b Bu
 		return err
 	}
 	return os.WriteFile(filepath.Join(dir, sc.ID()+".json"), append(bts, '\n'), 0o644)
-}
-
-func derefRecords(all []*RunRecord) []RunRecord {
-	out := make([]RunRecord, len(all))
-	for i, r := range all {
-		out[i] = *r
-	}
-	return out
 }
 
 func sampleOf(h *History) any {
